@@ -247,16 +247,45 @@ def signature(s, o):
     return "%s %s faults=%d ops=%s" % ("guard" if g else "noguard", what, len(fails), ",".join(kinds))
 
 
+REFPOS = {":r": 1, ":f": 1, ":w": 1}
+
+
+def drop_op(ops, i):
+    """Delete op i.  Block ids are op indices: a reference to i becomes dangling (that op is then skipped), later ones move down."""
+    out = []
+    for j, o in enumerate(ops):
+        if j == i:
+            continue
+        o = list(o)
+        if o[0] in REFPOS and o[REFPOS[o[0]]] != "~":
+            k = int(o[REFPOS[o[0]]], 16)
+            if k == i:
+                o[REFPOS[o[0]]] = "ffffffff"
+            elif i < k < 0xffffffff:
+                o[REFPOS[o[0]]] = "%x" % (k - 1)
+        out.append(o)
+    return out
+
+
 def shrink(s):
     g, ns, fails, ops = parse(s)
-    # drop trailing ops (ids are op indices, so only the tail can be deleted; inner ops are replaced by a no-op)
     if ops:
         yield unparse(g, ns, fails, ops[:-1])
+    # delete an op (renumbering the ids behind it); the underlying call indices move, so also try the fault points moved down
+    for i in range(len(ops)):
+        rest = drop_op(ops, i)
+        yield unparse(g, ns, fails, rest)
+        for d in (1, 2):
+            if fails and min(fails) >= d:
+                yield unparse(g, ns, [f - d for f in fails], rest)
     for i in range(len(ops)):
         if ops[i] != NOP:
             yield unparse(g, ns, fails, ops[:i] + [NOP] + ops[i + 1:])
     for i in range(len(fails)):
         yield unparse(g, ns, fails[:i] + fails[i + 1:], ops)
+    # smaller sizes / shorter strings in the last op
+    if ops and ops[-1][0] in (":w",) and len(ops[-1][3]) > 3:
+        yield unparse(g, ns, fails, ops[:-1] + [ops[-1][:3] + [ops[-1][3][:-2]]])
 
 
 LEVEL_TEXT = ("Machine-checked (Coq) theorems over an executable model of allocMemory/reallocMemory/deallocMemory with the size arithmetic written "
@@ -269,4 +298,4 @@ LEVEL_NOTE = ("Partial: the model is bounds-checked, so the logic of memory safe
               "Trusted: Coq kernel, extraction, harness (seams, region bookkeeping), generators, LP64. Modelled not verified: the C++ itself; libc "
               "malloc/realloc behind the seam; the default allocators' FAIL-on-NULL path (checkedMalloc) is not exercised.")
 TECHNIQUE = "Coq proof over hand-written executable model + extracted-model/implementation correspondence check (differential, boundary sweep + fault enumeration)"
-READY = False
+READY = True
